@@ -28,7 +28,10 @@ def run_check(prop, root, tier="quick"):
     ctx = Ctx(root)
     mod = importlib.import_module("sa.checks." + prop.lower())
     rep = core.Report(prop)
+    rep.ctx = ctx
+    rep.engine_free = set(getattr(mod, "ENGINE_FREE", ()))
     mod.check(ctx, rep, tier)
+    rep.engine_guard()
     return rep
 
 
